@@ -4,9 +4,12 @@ import (
 	"bytes"
 	"compress/gzip"
 	"context"
+	"encoding/base64"
 	"fmt"
 	"net"
 	"net/http"
+	"os"
+	"path/filepath"
 	"strconv"
 	"strings"
 	"sync"
@@ -16,7 +19,11 @@ import (
 
 	"github.com/gorilla/websocket"
 	"github.com/jpillora/backoff"
+	"github.com/practable/relay/internal/agg"
+	"github.com/practable/relay/internal/file"
+	"github.com/practable/relay/internal/hub"
 	"github.com/practable/relay/internal/reconws"
+	"github.com/practable/relay/internal/rwc"
 	"github.com/practable/relay/pkg/client"
 	"github.com/practable/relay/pkg/status"
 )
@@ -174,7 +181,8 @@ type run struct {
 	resume     chan struct{}
 	busyStop   chan struct{} // non-nil while the busy sender runs
 	stayArmed  bool
-	tag        string // marks the numbered messages of this run (a re-used client may still hold one of the last round)
+	stayUp     chan struct{} // closed when the long-lived connection is first established
+	tag        string        // marks the numbered messages of this run (a re-used client may still hold one of the last round)
 	garbled    []int
 	sentAt     []time.Time // long-lived connection: when numbered message n was handed to r.Out (pkg/status run: sent by the server)
 	echoSeq    []int
@@ -400,6 +408,10 @@ func (r *run) serveStay(c *websocket.Conn, a *attempt) {
 	r.stayArmed = true
 	r.mu.Unlock()
 	if first {
+		close(r.stayUp)
+		if r.c.Via == "file" { // the play file waits for this line before it starts sending
+			_ = c.WriteMessage(websocket.TextMessage, []byte("hello:"+r.tag))
+		}
 		go func() {
 			select {
 			case <-time.After(time.Duration(r.c.Stay)):
@@ -464,6 +476,9 @@ func (r *run) serveStay(c *websocket.Conn, a *attempt) {
 		}
 		r.mu.Lock()
 		a.k++
+		if r.c.Via == "file" && strings.HasPrefix(string(data), "e:") {
+			r.sentAt = append(r.sentAt, time.Now()) // the tool sends by itself: the time of arrival stands in
+		}
 		r.mu.Unlock()
 		if err := c.WriteMessage(mt, data); err != nil {
 			return
@@ -683,7 +698,7 @@ func runLoop(c *Case, sh *shared) {
 	if sh == nil {
 		sh = &shared{}
 	}
-	r := &run{c: c, finished: make(chan struct{}), pauseReq: make(chan struct{}), resume: make(chan struct{}, 1)}
+	r := &run{c: c, finished: make(chan struct{}), pauseReq: make(chan struct{}), resume: make(chan struct{}, 1), stayUp: make(chan struct{})}
 	as, pa := serve(r.accessHandler, false)
 	ws, pw := serve(r.wsHandler, true)
 	ports.Store(pa, portInfo{r, 'a'})
@@ -707,6 +722,125 @@ func runLoop(c *Case, sh *shared) {
 	r.rc = rc
 	inCh, outCh := rc.In, rc.Out
 	var cl *client.Client
+	var launchWrapper func()
+	if c.Via == "rwc" {
+		// a destination rule of the host: hub <-> RelayOut/RelayIn <-> the reconnecting client
+		closed := make(chan struct{})
+		mh := agg.New()
+		go mh.Run(closed)
+		h := rwc.New(mh)
+		go h.Run(closed)
+		local := &hub.Client{Hub: mh.Hub, Name: "harness", Topic: "data", Send: make(chan hub.Message, 256), Stats: hub.NewClientStats()}
+		inCh, outCh = make(chan reconws.WsMessage), make(chan reconws.WsMessage)
+		go func() {
+			for {
+				select {
+				case m := <-local.Send:
+					select {
+					case inCh <- reconws.WsMessage{Data: m.Data, Type: m.Type}:
+					case <-r.finished:
+						return
+					}
+				case <-r.finished:
+					return
+				}
+			}
+		}()
+		go func() {
+			for {
+				select {
+				case m := <-outCh:
+					select {
+					case mh.Broadcast <- hub.Message{Sender: *local, Data: m.Data, Type: m.Type, Sent: time.Now()}:
+					case <-r.finished:
+						return
+					}
+				case <-r.finished:
+					return
+				}
+			}
+		}()
+		rule := rwc.Rule{ID: "rule-" + r.tag, Stream: "data", Destination: r.wsURL}
+		if c.Loop == "auth" {
+			rule.Destination, rule.Token = fmt.Sprintf("http://127.0.0.1:%d/session/x", pa), "token"
+		}
+		launchWrapper = func() {
+			mh.Register <- local
+			h.Add <- rule
+		}
+		cancel = func() {
+			select {
+			case h.Delete <- rule.ID: // deleting the rule cancels its client
+			case <-time.After(2 * time.Second):
+			}
+		}
+		r.cancel = cancel
+		go func() { <-r.finished; close(closed) }()
+	}
+	if c.Via == "file" {
+		// the file tool: incoming lines go to the log file, outgoing lines come from the play file
+		dir, _ := os.MkdirTemp("", "c19-file-")
+		logf, playf := filepath.Join(dir, "log.txt"), filepath.Join(dir, "play.txt")
+		var pb strings.Builder
+		for i, st := range c.Sched {
+			if st.W == "accept" {
+				for n := 0; n < st.K; n++ {
+					fmt.Fprintf(&pb, "c:%d:%d\n", i, n)
+				}
+			}
+		}
+		fmt.Fprintf(&pb, "<'^hello:%s$',1,60s> e:0:%s\n", r.tag, r.tag)
+		for n := 1; n < 8; n++ {
+			fmt.Fprintf(&pb, "[300ms] e:%d:%s\n", n, r.tag)
+		}
+		_ = os.WriteFile(playf, []byte(pb.String()), 0o644)
+		inCh, outCh = make(chan reconws.WsMessage), make(chan reconws.WsMessage)
+		go func() { // nothing can be handed to the tool at run time: what the user would send is in the play file
+			for {
+				select {
+				case <-outCh:
+				case <-r.finished:
+					return
+				}
+			}
+		}()
+		go func() { // follow the log file
+			defer os.RemoveAll(dir)
+			off := 0
+			for {
+				if b, err := os.ReadFile(logf); err == nil && len(b) > off {
+					chunk := string(b[off:])
+					if i := strings.LastIndex(chunk, "\n"); i >= 0 {
+						for _, line := range strings.Split(chunk[:i], "\n") {
+							if j := strings.Index(line, "] "); j >= 0 {
+								content, mt := []byte(line[j+2:]), websocket.TextMessage
+								// the tool logs a binary message base64-encoded
+								if dec, err := base64.StdEncoding.DecodeString(line[j+2:]); err == nil && !strings.Contains(line[j+2:], ":") {
+									content, mt = dec, websocket.BinaryMessage
+								}
+								select {
+								case inCh <- reconws.WsMessage{Data: content, Type: mt}:
+								case <-r.finished:
+									return
+								}
+							}
+						}
+						off += i + 1
+					}
+				}
+				select {
+				case <-time.After(15 * time.Millisecond):
+				case <-r.finished:
+					return
+				}
+			}
+		}()
+		launchWrapper = func() {
+			go func() {
+				_ = file.Run(ctx, make(chan os.Signal), fmt.Sprintf("http://127.0.0.1:%d/session/x", pa), "token", logf, playf, 10*time.Millisecond, false, false)
+			}()
+		}
+	}
 	var stw *status.Status
 	if c.Via == "status" {
 		if sh.stw == nil {
@@ -827,8 +961,15 @@ func runLoop(c *Case, sh *shared) {
 		}
 	}()
 
-	if c.Stay > 0 && c.Via != "status" { // the user of a long-lived connection: a numbered message every ~300 ms
+	if c.Stay > 0 && c.Via != "status" && c.Via != "file" { // the user of a long-lived connection: a numbered message every ~300 ms
 		go func() {
+			if c.Via == "rwc" { // the hub drops a destination that does not take its messages: only talk when connected
+				select {
+				case <-r.stayUp:
+				case <-r.finished:
+					return
+				}
+			}
 			for n := 0; ; n++ {
 				mt := websocket.TextMessage
 				if n%2 == 1 {
@@ -854,19 +995,43 @@ func runLoop(c *Case, sh *shared) {
 	returned := make(chan struct{})
 	var returnedAt time.Time
 	r.launch = time.Now()
-	go func() {
-		if stw != nil {
-			stw.Connect(ctx, fmt.Sprintf("http://127.0.0.1:%d/session/x", pa), "token")
-		} else if cl != nil {
-			cl.Connect(ctx, fmt.Sprintf("http://127.0.0.1:%d/session/x", pa), "token")
-		} else if c.Loop == "auth" {
-			rc.ReconnectAuth(ctx, fmt.Sprintf("http://127.0.0.1:%d/session/x", pa), "token")
-		} else {
-			rc.Reconnect(ctx, r.wsURL)
-		}
-		returnedAt = time.Now()
-		close(returned)
-	}()
+	if launchWrapper != nil {
+		// the loop runs inside the wrapper, its return cannot be seen from here: what is checked instead is that
+		// nothing contacts the servers any more after the cancellation
+		launchWrapper()
+		go func() {
+			for {
+				r.mu.Lock()
+				z := r.cancelAt.IsZero()
+				r.mu.Unlock()
+				if !z {
+					time.Sleep(50 * time.Millisecond)
+					returnedAt = time.Now()
+					close(returned)
+					return
+				}
+				select {
+				case <-time.After(10 * time.Millisecond):
+				case <-r.finished:
+					return
+				}
+			}
+		}()
+	} else {
+		go func() {
+			if stw != nil {
+				stw.Connect(ctx, fmt.Sprintf("http://127.0.0.1:%d/session/x", pa), "token")
+			} else if cl != nil {
+				cl.Connect(ctx, fmt.Sprintf("http://127.0.0.1:%d/session/x", pa), "token")
+			} else if c.Loop == "auth" {
+				rc.ReconnectAuth(ctx, fmt.Sprintf("http://127.0.0.1:%d/session/x", pa), "token")
+			} else {
+				rc.Reconnect(ctx, r.wsURL)
+			}
+			returnedAt = time.Now()
+			close(returned)
+		}()
+	}
 
 	// wait for the scripted cancellation (or give up at the deadline), then for the loop to return
 	dl := time.After(c.deadline())
